@@ -85,6 +85,66 @@ def kernel_shard(conn, nio, T, dt, sign):
     return tally
 
 
+def cos_post_kernel(diff, learning_rate, time_constant, **kwargs):
+    return torch.exp(diff.abs() / (-time_constant)) * torch.cos(diff) * (learning_rate * (diff >= 0).to(dtype=diff.dtype))
+
+
+def cos_pre_kernel(diff, learning_rate, time_constant, **kwargs):
+    return torch.exp(diff.abs() / (-time_constant)) * torch.cos(diff) * (learning_rate * (diff < 0).to(dtype=diff.dtype))
+
+
+def kernel_parts_shard(T, dt):
+    """a kernel that changes sign with the spike-time difference, batch of two, sum reduction: every per-sample term is routed
+    by its own sign BEFORE the batch is reduced - the parts equal the sums of the per-sample parts"""
+    tally = Tally()
+    spec = Cellspec("dense", 1, 1)
+    hs = all_histories(T, 2)
+    lp, ln, tp, tn = 0.5, 0.25, 4.0, 3.0
+
+    def term(td):
+        if td != td:
+            return 0.0
+        k = math.exp(-abs(td) / (tp if td >= 0 else tn)) * math.cos(td)
+        return (lp if td >= 0 else ln) * k
+
+    for ha, hb in itertools.product(hs, hs):
+        pair = [ha, hb]
+        tally.add("evaluations")
+        case = {"rule": "kernel(sign-changing)", "dt": dt, "histories": pair, "reduction": "sum"}
+        layer = spec.build(dt, 2)
+        tr = KernelSTDP(cos_post_kernel, cos_pre_kernel, dict(learning_rate=lp, time_constant=tp), dict(learning_rate=ln, time_constant=tn), batch_reduction=torch.sum)
+        tr.register_cell("cell", layer.cell)
+        last_pre, last_post = [float("nan")] * 2, [float("nan")] * 2
+        pos_ref = neg_ref = 0.0
+        for t in range(T):
+            try:
+                layer(spec.pre_tensor([h[t][:1] for h in pair]), neuron_kwargs={"override": spec.post_tensor([h[t][1:] for h in pair])})
+                tr()
+            except Exception as ex:
+                tally.violation(f"exception:kernel-parts:{type(ex).__name__}", {**case, "step": t}, repr(ex))
+                break
+            for b, h in enumerate(pair):
+                if h[t][0]:
+                    last_pre[b] = t * dt
+                if h[t][1]:
+                    last_post[b] = t * dt
+                v = term(last_post[b] - last_pre[b])
+                pos_ref += max(v, 0.0)
+                neg_ref += max(-v, 0.0)
+            acc = layer.connection.updater.weight
+            gp = 0.0 if acc.pos is None else float(acc.pos)
+            gn = 0.0 if acc.neg is None else float(acc.neg)
+            if abs(gp - pos_ref) > 1e-5 or abs(gn - neg_ref) > 1e-5:
+                tally.violation("routing:kernel:sign-changing:batch", {**case, "step": t}, f"parts (pos, neg) = ({gp}, {gn}) but the per-sample terms routed by their own "
+                                f"sign sum to ({pos_ref}, {neg_ref})", [pos_ref, neg_ref], [gp, gn])
+                break
+        if ha != hb:
+            tally.mark("nontrivial", ("kernel-parts", dt, tuple(map(tuple, ha)), tuple(map(tuple, hb))))
+    tally.add("histories", len(hs) ** 2)
+    tally.sample({"part": "sign-changing kernel, batch 2, sum reduction", "T": T, "dt": dt})
+    return tally
+
+
 def homeostasis_shard(param, plasticity, nio, T):
     """every postsynaptic history (one run each, batch size 1) x targets above and below the observed rate"""
     tally = Tally()
@@ -261,7 +321,9 @@ def routing_shard():
 def run(rep):
     quick = rep.tier == "quick"
     T1 = 3 if quick else 4
-    jobs = [(direction_shard, ()), (routing_shard, ())]
+    jobs = [(direction_shard, ()), (routing_shard, ()), (kernel_parts_shard, (2 if quick else 3, 2.0))]
+    if not quick:
+        jobs.append((kernel_parts_shard, (3, 1.0)))
     for kind in ("stdp", "triplet", "mstdp", "mstdpet"):
         for sign in c08.SIGNS:
             sp = "stepalt" if kind in ("mstdp", "mstdpet") else "pos"
